@@ -610,7 +610,7 @@ def make_case(codec, style, segs, v, oe, errs, comment_enc=None, fmt=0, trail=""
     bb = body.encode(cs)
     if junk:
         pos, jb = junk
-        pos = pos % (len(bb) + 1)
+        pos = len(bb) if pos < 0 else pos % (len(bb) + 1)  # (-1: at the very end of the input)
         bb = bb[:pos] + bytes.fromhex(jb) + bb[pos:]
     raw = (BOM if codec == "utf-8-bom" else b"") + hb + bb
     expected = "".join(doc.exp)
@@ -682,6 +682,12 @@ def case_strategy(codec, style):
             if draw(one_in_4):
                 trail = draw(lines[ascii_only]).replace(":", ".").replace("=", ".").replace("\n", " ")
         junk = draw(junk_st) if draw(one_in_10) else None
+        if junk is None and draw(one_in_10):
+            # a multi-byte character cut short by the end of the input
+            mb = [c for c in SAMPLE[cs] if len(c.encode(cs)) >= 2]
+            if mb:
+                enc_ = draw(st.sampled_from(mb)).encode(cs)
+                junk = (-1, enc_[:draw(st.integers(1, len(enc_) - 1))].hex())
         fi = draw(st.sampled_from(FUTURE)) if draw(one_in_4) else None
         return make_case(codec, style, segs, v, oe, errs, comment_enc=comment_enc, fmt=fmt, trail=trail,
                          term=term, ie=ie, junk=junk, neg=neg, fi=fi)
@@ -789,6 +795,14 @@ def sweep_cases(codec, style, quick):
                                                             fi=FUTURE[i % len(FUTURE)] if i % 3 == 1 else None,
                                                             term="\r\n" if i % 4 == 0 else "\n",
                                                             trail=s if i % 3 == 0 else "")
+    # in every cell: the same body with a multi-byte character cut short by the end of the input must be refused
+    mb = [c for c in SAMPLE[cs] if len(c.encode(cs)) >= 2]
+    if mb and decls:
+        cenc, ie, neg = decls[0]
+        for c in mb[:2]:
+            e_ = c.encode(cs)
+            for cut in range(1, len(e_)):
+                yield (codec, style, segs, "", OUT_ENC[0], ERRS[0]), dict(comment_enc=cenc, fmt=0, ie=ie, neg=neg, junk=(-1, e_[:cut].hex()))
 
 
 def minimise(args, kw, f0, env):
